@@ -204,6 +204,10 @@ func (c *specCtx) ident(name string) Val {
 	case "MaxUint64":
 		return c.intV("18446744073709551615")
 	}
+	if vc.tolerant {
+		vc.missingNames++
+		return Val{S: "true", Sort: "Bool"}
+	}
 	return c.fail("unresolved name %q", name)
 }
 
